@@ -14,7 +14,7 @@ RULE = ('region 2 cells x 2 magnitude bins; forecasts = all 81 rate arrays over 
         '(each unordered pair is run in both orders; every self-pair present); catalogs = all multisets of 2..3 (thorough 2..5) events over the four bins; '
         'paired_t_test, w_test and binary_paired_t_test through real GriddedForecast/CSEPCatalog objects at alpha=0.05; '
         'alpha in {0.01,0.5} and scale=True (10-day window) on the complete 9x9 sub-block; thorough adds rates '
-        '{1e-3, 10} on a 2x1 region (all pairs) and catalogs of 5 events. A case is non-trivial iff the catalog has a '
+        'nearly equal forecast pairs (relative differences 1e-9, 1e-7, 1e-5 in every bin / in one bin / at rates x1000); {1e-3, 10} on a 2x1 region (all pairs) and catalogs of 5 events. A case is non-trivial iff the catalog has a '
         'repeated bin or tied |differences| or the two forecasts have different totals; distinct by construction.')
 ASSUMPTIONS = ['scipy.stats.t.ppf and scipy.stats.norm.sf are trusted (the property is defined through those laws)',
                't statistic / interval are compared only where the reference variance is clear of zero (relative 1e-9); '
@@ -37,6 +37,14 @@ def cases(tier, seed):
         yield dict(kind='block', shape=[2, 2], alpha=ALPHA3, a_idx=[i], b_idx=sub, max_events=(3 if tier == 'quick' else 4), variants='alpha-scale')
     for chunk in space.chunks(list(range(len(rates))), 1):
         yield dict(kind='block', shape=[2, 2], alpha=ALPHA3, a_idx=chunk, max_events=(3 if tier == 'quick' else 4), variants='main')
+    # nearly equal forecasts: log-rate differences and null median of order 1e-9 .. 1e-5 (relative to rates of order 1)
+    base = [0.25, 1.0, 4.0, 2.0]
+    near = []
+    for eps in (1e-9, 1e-7, 1e-5):
+        near.append((base, [x * (1 + k * eps) for x, k in zip(base, (1, -2, 3, 5))]))          # every bin differs
+        near.append((base, [base[0] * (1 + eps)] + base[1:]))                                   # one bin differs: most differences are exactly 0
+        near.append(([x * 1000 for x in base], [x * 1000 * (1 + k * eps) for x, k in zip(base, (2, 1, -1, 4))]))
+    yield dict(kind='pairs', shape=[2, 2], alpha=[], pairs=near, max_events=(3 if tier == 'quick' else 4))
     if tier == 'thorough':
         r2 = all_rates([1e-3, 0.25, 1.0, 4.0, 10.0], 2)
         for chunk in space.chunks(list(range(len(r2))), 5):
@@ -141,6 +149,10 @@ def run_case(case):
         pairs = [(case['a'], case['b'])]
         catalogs = [case['catalog']]
         variants = [(case['alpha_level'], case['scale'])]
+    elif case['kind'] == 'pairs':
+        pairs = [(list(a), list(b)) for a, b in case['pairs']]
+        catalogs = [list(c) for c in space.multisets(list(range(n)), 2, case['max_events'])]
+        variants = [(0.05, False)]
     else:
         a_idx = case['a_idx']
         b_idx = case.get('b_idx') or list(range(len(rates)))
